@@ -112,10 +112,13 @@ POOL = {
     },
     # untyped datasets: any attribute goes
     "uEvent": {
-        "Select": [("lambda e: e.jets", "other"), ("lambda e: e.met", "other"), ("lambda e: (e.a, e.b)", "other"), ("lambda e: e.jets.Select(lambda j: j.pt)", "other"),
+        "Select": [("lambda e: MetaData(e.jets, {}).Select(lambda j: j.pt)", "other"), ("lambda e: (MetaData(e.jets, {}), e.met)", "other"),
+                   ("lambda e: [MetaData(e.a, {}), MetaData(e.b, {'k': 1})]", "other"), ("lambda e: {'a': MetaData(e.jets, {})}", "other"),
+                   ("lambda e: MetaData(e.a, {}) > 1 and MetaData(e.b, {}) < 2", "other"), ("lambda e: f(e.a, k=MetaData(e.b, {}))", "other"),
+                   ("lambda e: e.jets", "other"), ("lambda e: e.met", "other"), ("lambda e: (e.a, e.b)", "other"), ("lambda e: e.jets.Select(lambda j: j.pt)", "other"),
                    ("lambda e: {'a': e.x}", "other"), ("lambda e: e.f(1, k=2)", "other")],
-        "Where": [("lambda e: e.met > 10", None), ("lambda e: e.a > 1 or e.b < 2", None)],
-        "SelectMany": [("lambda e: e.jets", "uEvent"), ("lambda e: e.jets.Select(lambda j: j.trks)", "other")],
+        "Where": [("lambda e: e.met > 10", None), ("lambda e: e.a > 1 or e.b < 2", None), ("lambda e: MetaData(e.met, {}) > 10", None)],
+        "SelectMany": [("lambda e: MetaData(e.jets, {})", "uEvent"), ("lambda e: e.jets", "uEvent"), ("lambda e: e.jets.Select(lambda j: j.trks)", "other")],
     },
 }
 TERMINALS = [
@@ -151,6 +154,7 @@ class History:
         self.model = build_model()
         self.building = 0  # >0 while inside a derive call (U-exec)
         self.shared_asts = {}
+        self.callers_dict_modified = []
         self.mode_counts = {}
         hist = self
 
@@ -264,10 +268,13 @@ class History:
 
     def qmetadata(self, e, d):
         self.building += 1
+        before = dict(d)
         try:
             s = e.s.QMetaData(d)
         finally:
             self.building -= 1
+        if d != before or list(d) != list(before):
+            self.callers_dict_modified.append((dict(before), dict(d)))
         ne = self._register(s, e.kind, e.ds, e, f"QMetaData({d!r})")
         ne.terminal = e.terminal
         self._event("QMetaData", {"on": e.id, "new": ne.id, "dict": d})
